@@ -1,5 +1,6 @@
 import Shentu.Model.Mint
 import Shentu.Proofs.BankLemmas
+import Shentu.Proofs.MintLemmas
 /-
   C01 (and C02, C08) for the mint module's BeginBlocker — "supply changes only by the block's minted provision".
 
@@ -13,6 +14,8 @@ import Shentu.Proofs.BankLemmas
    * `split_exact`            the three shares are non-negative and add up to exactly the provision;
    * `split_ok_of_ratios`     with non-negative ratios that add up to at most one the split never panics (C08);
    * `split_panics_iff`       … and it panics exactly when a share is negative or the shares exceed the provision;
+   * `ratios_sum_le_one`      the two ratios do add up to at most one whenever both pools are coins inside the supply and one whole
+                              coin is held elsewhere (half-even rounding of `Dec.Quo` taken into account), hence `split_never_halts`;
    * `beginBlock_inv`         balances = supply is preserved (C01);
    * `beginBlock_supply`      the supply grows by exactly the provision, in the bond denomination only;
    * `beginBlock_mint_account` the mint module account holds afterwards what it held before: everything minted is handed on;
@@ -20,7 +23,7 @@ import Shentu.Proofs.BankLemmas
                               (the shield share is what `Shield.fundBlockRewards` then books as block service fees: C02).
 -/
 namespace Shentu.Props.C01m
-open Shentu Shentu.Mint
+open Shentu Shentu.Mint Shentu.MintL
 
 /-- every arithmetic site of x/mint was recognised in the source -/
 theorem tie_sites : Gen.Mint.allFound = true := by decide
@@ -238,6 +241,101 @@ theorem beginBlock_mint_account (a : Accts) (bond : Denom) (l l' : Ledger) (mint
     (h : beginBlock a bond l minted cp pool = .ok (l', sp)) : l'.balOf a.mint bond = l.balOf a.mint bond :=
   (beginBlock_deliveries a bond l l' minted cp pool sp hd h).1
 
+/-- the bond-denomination entry of the community pool, 18 digits (zero when there is none) -/
+def cpRaw : Option Dec → Int
+  | some c => c.raw
+  | none => 0
+
+/-- **The ratios add up to at most one** whenever the community pool and the stake-for-shield pool are coins inside the supply
+    and at least one whole coin of the supply is held elsewhere (the bonded stake, for one). Together with
+    `split_ok_of_ratios`: the mint's BeginBlocker cannot halt the chain. -/
+theorem ratios_sum_le_one (supply pool : Int) (cp : Option Dec) (rc : Dec)
+    (hS : 0 < supply) (hP : 0 ≤ pool) (hc : ∀ c, cp = some c → 0 ≤ c.raw)
+    (hroom : cpRaw cp + pool * Dec.prec + Dec.prec ≤ supply * Dec.prec)
+    (h : cpRatio cp supply = .ok rc) :
+    0 ≤ rc.raw ∧ 0 ≤ (sspRatio pool supply).raw ∧ rc.raw + (sspRatio pool supply).raw ≤ Dec.prec := by
+  have hp : (0 : Int) < Dec.prec := by decide
+  have hb : 0 < (Dec.ofInt supply).raw := Int.mul_pos hS hp
+  -- the shield ratio
+  have h2 : 0 ≤ (sspRatio pool supply).raw ∧ 2 * (sspRatio pool supply).raw * (supply * Dec.prec) ≤ 2 * (pool * Dec.prec) * Dec.prec + supply * Dec.prec := by
+    unfold sspRatio
+    have hz : Gen.Mint.sspZeroGuard (Gen.Mint.supplyDecSsp supply) = false := by
+      show Dec.isZero (Dec.ofInt supply) = false
+      unfold Dec.isZero; simp; exact Int.ne_of_gt hb
+    rw [hz]; simp only [Bool.false_eq_true, if_false]
+    exact quo_bound (Dec.ofInt pool) (Dec.ofInt supply) (Int.mul_nonneg hP (Int.le_of_lt hp)) hb
+  -- the community-pool ratio
+  have h1 : 0 ≤ rc.raw ∧ 2 * rc.raw * (supply * Dec.prec) ≤ 2 * cpRaw cp * Dec.prec + supply * Dec.prec := by
+    unfold cpRatio at h
+    cases cp with
+    | none =>
+      injection h with h; subst h
+      refine ⟨Int.le_refl _, ?_⟩
+      show 2 * (0 : Int) * (supply * Dec.prec) ≤ 2 * cpRaw none * Dec.prec + supply * Dec.prec
+      simp only [cpRaw]
+      have := Int.le_of_lt hb; simp only [Dec.ofInt] at this; omega
+    | some c =>
+      simp only at h
+      have hnz : ((Gen.Mint.supplyDecCp supply).raw == 0) = false := by
+        show ((Dec.ofInt supply).raw == 0) = false
+        simp; exact Int.ne_of_gt hb
+      rw [hnz] at h; simp only [Bool.false_eq_true, if_false] at h
+      injection h with h; subst h
+      exact quo_bound c (Dec.ofInt supply) (hc c rfl) hb
+  refine ⟨h1.1, h2.1, ?_⟩
+  generalize (sspRatio pool supply).raw = r2 at h2
+  generalize rc.raw = r1 at h1
+  generalize cpRaw cp = c at h1 hroom
+  -- 2 (r1 + r2) S p ≤ 2 p (c + P p + S)
+  have hsum : (r1 + r2) * supply * Dec.prec ≤ (c + pool * Dec.prec + supply) * Dec.prec := by
+    have a1 : 2 * r1 * (supply * Dec.prec) = 2 * (r1 * supply * Dec.prec) := by rw [Int.mul_assoc 2, Int.mul_assoc r1]
+    have a2 : 2 * r2 * (supply * Dec.prec) = 2 * (r2 * supply * Dec.prec) := by rw [Int.mul_assoc 2, Int.mul_assoc r2]
+    have a3 : (r1 + r2) * supply * Dec.prec = r1 * supply * Dec.prec + r2 * supply * Dec.prec := by rw [Int.add_mul, Int.add_mul]
+    have a4 : (c + pool * Dec.prec + supply) * Dec.prec = c * Dec.prec + pool * Dec.prec * Dec.prec + supply * Dec.prec := by
+      rw [Int.add_mul, Int.add_mul]
+    have a5 : 2 * c * Dec.prec = 2 * (c * Dec.prec) := Int.mul_assoc _ _ _
+    have a6 : 2 * (pool * Dec.prec) * Dec.prec = 2 * (pool * Dec.prec * Dec.prec) := Int.mul_assoc _ _ _
+    rw [a3, a4]
+    have h1' := h1.2; have h2' := h2.2
+    rw [a1, a5] at h1'; rw [a2, a6] at h2'
+    omega
+  have hS' : (r1 + r2) * supply ≤ c + pool * Dec.prec + supply := Int.le_of_mul_le_mul_right hsum hp
+  -- were the sum above one, (p + 1) S ≤ (r1 + r2) S ≤ S p - p + S
+  by_cases hgt : r1 + r2 ≤ Dec.prec
+  · exact hgt
+  · exfalso
+    have hge : Dec.prec + 1 ≤ r1 + r2 := by omega
+    have hm : (Dec.prec + 1) * supply ≤ (r1 + r2) * supply := Int.mul_le_mul_of_nonneg_right hge (Int.le_of_lt hS)
+    have e : (Dec.prec + 1) * supply = supply * Dec.prec + supply := by rw [Int.add_mul, Int.mul_comm, Int.one_mul]
+    rw [e] at hm
+    omega
+
+/-- **C08 for the mint.** With a non-negative provision, pools that are coins inside the supply and one whole coin held
+    elsewhere, the split of the provision succeeds. -/
+theorem split_never_halts (minted supply pool : Int) (cp : Option Dec) (rc : Dec)
+    (hm : 0 ≤ minted) (hS : 0 < supply) (hP : 0 ≤ pool) (hc : ∀ c, cp = some c → 0 ≤ c.raw)
+    (hroom : cpRaw cp + pool * Dec.prec + Dec.prec ≤ supply * Dec.prec)
+    (h : cpRatio cp supply = .ok rc) : ∃ sp, split minted rc (sspRatio pool supply) = .ok sp := by
+  obtain ⟨h1, h2, h3⟩ := ratios_sum_le_one supply pool cp rc hS hP hc hroom h
+  exact split_ok_of_ratios minted rc _ hm h1 h2 h3
+
+/-- and the ratio itself is always computed when the supply is positive -/
+theorem cpRatio_ok (supply : Int) (cp : Option Dec) (hS : 0 < supply) : ∃ rc, cpRatio cp supply = .ok rc := by
+  unfold cpRatio
+  cases cp with
+  | none => exact ⟨_, rfl⟩
+  | some c =>
+    have hnz : ((Gen.Mint.supplyDecCp supply).raw == 0) = false := by
+      show ((Dec.ofInt supply).raw == 0) = false
+      have : (0 : Int) < supply * Dec.prec := Int.mul_pos hS (by decide)
+      have hne : (Dec.ofInt supply).raw ≠ 0 := Int.ne_of_gt this
+      simpa using hne
+    simp only [hnz, Bool.false_eq_true, if_false]; exact ⟨_, rfl⟩
+
+/-- non-vacuity: community pool 1,250,000.5 and stake-for-shield pool 3,333,333 in a supply of 9,999,000 -/
+example : (1250000500000000000000000 : Int) + 3333333 * Dec.prec + Dec.prec ≤ 9999000 * Dec.prec := by decide
+
+
 /-! non-vacuity: a provision of 1,000,003 with a community pool of 12.5 % and a shield pool of 1/3 of the supply -/
 def exAccts : Accts := ⟨"mint", "fees", "distr", "shield"⟩
 def exLedger : Ledger := { posts := [("alice", "uctk", 7999000), ("distr", "uctk", 1000000)], supply := [("uctk", 8999000)] }
@@ -261,3 +359,6 @@ end Shentu.Props.C01m
 #print axioms Shentu.Props.C01m.beginBlock_supply
 #print axioms Shentu.Props.C01m.beginBlock_deliveries
 #print axioms Shentu.Props.C01m.beginBlock_mint_account
+#print axioms Shentu.Props.C01m.ratios_sum_le_one
+#print axioms Shentu.Props.C01m.split_never_halts
+#print axioms Shentu.Props.C01m.cpRatio_ok
